@@ -12,6 +12,7 @@ def check(A):
     R.cors_rules(A, 'C13')
     R.asgi_env_rules(A, 'C13')
     R.config_rules(A, 'C13', which=('cors',))
+    R.driver_environ_rule(A, 'C13')
     R.constructor_rules(A, 'C13', fresh_rule='C13')
     for fl in FLAVOURS:
         R.cors_per_response_rule(A, fl, 'C13')
